@@ -19,7 +19,7 @@ MODEL_FILES = ["Model/Gates.v"]
 META = {
     "category": "proof",
     "text": "Coq theorems, one per validating constructor (QCOW2, VHDX incl. region/metadata tables and parent locator, VDI, "
-            "HDS, HDD, VMDK sparse header, Hyper-V file/replay log/object table/key table, ESXi envelope, keystore, VMX key "
+            "HDS, HDD, VMDK sparse header and the 64-bit SESparse magic that selects the layout, Hyper-V file/replay log/object table/key table, ESXi envelope, keystore, VMX key "
             "safe): accepted implies magic/version/geometry/feature values inside the supported set, over ALL field values. "
             "The gate models are tied to the source by a regenerated inventory of every raise statement with its path "
             "condition (pinned by a lemma: a deleted/widened/reordered gate breaks it) and by differential correspondence on "
